@@ -56,10 +56,13 @@ static std::string hll_readout(const Hll& s) {
 static std::string hll_type_free_readout(const Hll& s) {
   const Hll h8(s, HLL_8);
   auto img = s.serialize_compact();
+  auto as8 = h8.serialize_updatable();
+  // cur_min / num_at_cur_min are bookkeeping that HLL_8 arrays reached by different routes keep differently; not observable
+  if (as8.size() >= 40 && (as8[7] & 3) == 2) { as8[6] = 0; memset(as8.data() + 32, 0, 4); }
   static const char* m[] = {"list", "set", "hll", "?"};
   return std::string("mode=") + m[img[7] & 3] + " lg_k=" + std::to_string(s.get_lg_config_k()) + " empty=" + std::to_string(s.is_empty()) +
     " est=" + dstr(s.get_estimate()) + " comp=" + dstr(s.get_composite_estimate()) + " lb=" + dstr(s.get_lower_bound(1)) + " ub=" + dstr(s.get_upper_bound(1)) +
-    " as8=" + bytes_hex(h8.serialize_updatable());
+    " as8=" + bytes_hex(as8);
 }
 // `ref` and `conv` describe the same sketch (conv was obtained by a type-converting copy); both are temporaries
 static void hll_continue_both(Hll& ref, Hll& conv, const HCfg& c, Rng& r, const std::string& label) {
